@@ -13,7 +13,8 @@ use std::path::Path;
 #[derive(Clone, Debug, PartialEq)]
 pub enum PEntry {
     File { name: Vec<u8>, content: String },
-    BadFile { name: Vec<u8> }, // content that is not UTF-8
+    /// content that is not UTF-8; via_link: 0 = a regular file, 1 = reached through a symlink, 2 = through a chain of two
+    BadFile { name: Vec<u8>, via_link: u8 },
     Dir { name: Vec<u8> },
     LinkToFile { name: Vec<u8>, content: String, chain: bool },
     LinkToDir { name: Vec<u8> },
@@ -129,7 +130,7 @@ fn case_strategy() -> impl Strategy<Value = Case> {
 fn pentry_json(e: &PEntry) -> Value {
     match e {
         PEntry::File { name, content } => json!({"file": bytes_to_json(name), "content": content}),
-        PEntry::BadFile { name } => json!({"bad_file": bytes_to_json(name)}),
+        PEntry::BadFile { name, via_link } => json!({"bad_file": bytes_to_json(name), "via_link": via_link}),
         PEntry::Dir { name } => json!({"dir": bytes_to_json(name)}),
         PEntry::LinkToFile { name, content, chain } => json!({"link_to_file": bytes_to_json(name), "content": content, "chain": chain}),
         PEntry::LinkToDir { name } => json!({"link_to_dir": bytes_to_json(name)}),
@@ -137,11 +138,11 @@ fn pentry_json(e: &PEntry) -> Value {
     }
 }
 fn pentry_from_json(v: &Value) -> PEntry {
-    let (k, x) = v.as_object().unwrap().iter().find(|(k, _)| k.as_str() != "content" && k.as_str() != "chain").unwrap();
+    let (k, x) = v.as_object().unwrap().iter().find(|(k, _)| k.as_str() != "content" && k.as_str() != "chain" && k.as_str() != "via_link").unwrap();
     let name = json_to_bytes(x);
     match k.as_str() {
         "file" => PEntry::File { name, content: v["content"].as_str().unwrap().into() },
-        "bad_file" => PEntry::BadFile { name },
+        "bad_file" => PEntry::BadFile { name, via_link: v["via_link"].as_u64().unwrap_or(0) as u8 },
         "dir" => PEntry::Dir { name },
         "link_to_file" => PEntry::LinkToFile { name, content: v["content"].as_str().unwrap().into(), chain: v["chain"].as_bool().unwrap() },
         "link_to_dir" => PEntry::LinkToDir { name },
@@ -188,7 +189,21 @@ const TARGET_VARS: [&str; 5] = ["CNB_TARGET_OS", "CNB_TARGET_ARCH", "CNB_TARGET_
 
 fn check(ctx: &Ctx, scratch: &Path, c: &Case) -> Check {
     ctx.eval();
-    let root = scratch.join(format!("c-{:016x}", hash_of(&case_json(c).to_string())));
+    let (r, classes) = check_pure(scratch, c);
+    for cl in classes {
+        ctx.class(cl);
+    }
+    r
+}
+
+fn check_pure(scratch: &Path, c: &Case) -> (Check, Vec<&'static str>) {
+    let classes: std::cell::RefCell<Vec<&'static str>> = std::cell::RefCell::new(vec![]);
+    let r = check_inner(scratch, c, &classes);
+    (r, classes.into_inner())
+}
+
+fn check_inner(scratch: &Path, c: &Case, classes: &std::cell::RefCell<Vec<&'static str>>) -> Check {
+    let root = scratch.join(format!("c-{:016x}-{}", hash_of(&case_json(c).to_string()), crate::core::uniq()));
     let _ = fsutil::force_remove(&root);
     let d = bprun::setup_dirs(&root);
     std::fs::write(d.buildpack.join("buildpack.toml"), emit_doc(&c.descriptor)).unwrap();
@@ -208,7 +223,7 @@ fn check(ctx: &Ctx, scratch: &Path, c: &Case) -> Check {
             let mut used: std::collections::BTreeSet<Vec<u8>> = Default::default();
             for (i, e) in entries.iter().enumerate() {
                 let name = match e {
-                    PEntry::File { name, .. } | PEntry::BadFile { name } | PEntry::Dir { name } | PEntry::LinkToFile { name, .. } | PEntry::LinkToDir { name } | PEntry::Dangling { name } => name.clone(),
+                    PEntry::File { name, .. } | PEntry::BadFile { name, .. } | PEntry::Dir { name } | PEntry::LinkToFile { name, .. } | PEntry::LinkToDir { name } | PEntry::Dangling { name } => name.clone(),
                 };
                 if !used.insert(name.clone()) {
                     continue;
@@ -219,8 +234,22 @@ fn check(ctx: &Ctx, scratch: &Path, c: &Case) -> Check {
                         std::fs::write(&p, content).unwrap();
                         expected_env.insert(name, content.clone().into_bytes());
                     }
-                    PEntry::BadFile { .. } => {
-                        std::fs::write(&p, [b'o', b'k', 0xff, 0xfe]).unwrap();
+                    PEntry::BadFile { via_link, .. } => {
+                        let bytes = [b'o', b'k', 0xff, 0xfe];
+                        match via_link {
+                            0 => std::fs::write(&p, bytes).unwrap(),
+                            n => {
+                                let t = targets.join(format!("bad{i}"));
+                                std::fs::write(&t, bytes).unwrap();
+                                if *n == 1 {
+                                    std::os::unix::fs::symlink(format!("../targets/bad{i}"), &p).unwrap();
+                                } else {
+                                    let mid = targets.join(format!("badmid{i}"));
+                                    std::os::unix::fs::symlink(format!("bad{i}"), &mid).unwrap();
+                                    std::os::unix::fs::symlink(&mid, &p).unwrap();
+                                }
+                            }
+                        }
                         bad_content = true;
                     }
                     PEntry::Dir { .. } => {
@@ -325,7 +354,7 @@ fn check(ctx: &Ctx, scratch: &Path, c: &Case) -> Check {
         let bad_file_input = c.build_phase && c.bad_input != 0;
         let expect_error = bad_content || bad_mandatory || bad_variant || bad_file_input;
         if expect_error {
-            ctx.class("expects-reported-error");
+            classes.borrow_mut().push("expects-reported-error");
             if out.code == Some(0) || out.dump.is_some() {
                 let sig = if bad_file_input && !bad_content && !bad_mandatory && !bad_variant {
                     if c.bad_input == 3 { "C06:unreadable-buildpack-plan-not-reported" } else { "C06:unreadable-store-treated-as-absent" }
@@ -424,23 +453,33 @@ fn nontrivial(c: &Case) -> bool {
 }
 
 pub fn run(ctx: &Ctx) {
-    ctx.set_rule("contexts of real detect/build executions of a scripted buildpack that dumps its context: platform directories (0..8 entries: files with byte-string names incl. dots, spaces, '=', newline, non-UTF-8 and UTF-8 contents incl. empty/trailing newlines/multi-line/padded; sub-directories; symlinks to files (direct and chained), to directories, dangling; env dir missing; platform dir missing), buildpack plans (0..4 entries with nested metadata of every TOML kind), store tables or no store.toml, descriptors with optional fields/targets/nested metadata, CNB_TARGET_* values from {unset (optional only), '', linux, v8, unicode, padded}, three spellings of CNB_BUILDPACK_DIR and the layers argument; separately generated classes with one unrepresentable value (non-UTF-8 file content, non-UTF-8 value of a mandatory target variable, non-UTF-8 CNB_TARGET_ARCH_VARIANT, store.toml with non-UTF-8 bytes, store.toml being a directory, buildpack plan with non-UTF-8 bytes). Inputs are emitted by the harness's own TOML emitter. Oracle: field-by-field equality of the dump with the generated inputs; unrepresentable value => reported error (non-zero exit, error handler once, no context). Non-trivial: platform env has >= 1 file plus >= 1 symlink/directory, or plan/store/descriptor metadata nested >= 2; distinct = hash of the case.");
+    ctx.set_rule("contexts of real detect/build executions of a scripted buildpack that dumps its context: platform directories (0..8 entries: files with byte-string names incl. dots, spaces, '=', newline, non-UTF-8 and UTF-8 contents incl. empty/trailing newlines/multi-line/padded; sub-directories; symlinks to files (direct and chained), to directories, dangling; env dir missing; platform dir missing), buildpack plans (0..4 entries with nested metadata of every TOML kind), store tables or no store.toml, descriptors with optional fields/targets/nested metadata, CNB_TARGET_* values from {unset (optional only), '', linux, v8, unicode, padded}, three spellings of CNB_BUILDPACK_DIR and the layers argument; separately generated classes with one unrepresentable value (non-UTF-8 file content in a regular file or behind one or two symlinks, non-UTF-8 value of a mandatory target variable, non-UTF-8 CNB_TARGET_ARCH_VARIANT, store.toml with non-UTF-8 bytes, store.toml being a directory, buildpack plan with non-UTF-8 bytes). Inputs are emitted by the harness's own TOML emitter. Oracle: field-by-field equality of the dump with the generated inputs; unrepresentable value => reported error (non-zero exit, error handler once, no context). Non-trivial: platform env has >= 1 file plus >= 1 symlink/directory, or plan/store/descriptor metadata nested >= 2; distinct = hash of the case.");
     ctx.assume("paths and argv are UTF-8");
     let scratch = Scratch::new("c06");
     for (_p, v) in ctx.regress_files() {
         replay(ctx, "", &v["case"]);
     }
-    ctx.run_prop("contexts", case_strategy(), ctx.tier.pick(1500, 40_000), case_json, |c| {
-        if nontrivial(c) {
-            ctx.class("nontrivial");
-            ctx.nontrivial(hash_of(&case_json(c).to_string()));
-            if (ctx.samples_len() < 2 || hash_of(&case_json(c).to_string()) % 173 == 0) {
-                ctx.sample(4, || case_json(c));
+    ctx.run_prop_par(
+        "contexts",
+        case_strategy(),
+        ctx.tier.pick(12_000, 120_000),
+        case_json,
+        |c| check_pure(&scratch.path, c),
+        |c, classes| {
+            ctx.eval();
+            for cl in classes {
+                ctx.class(cl);
             }
-        }
-        ctx.class(if c.build_phase { "phase:build" } else { "phase:detect" });
-        check(ctx, &scratch.path, c)
-    });
+            if nontrivial(c) {
+                ctx.class("nontrivial");
+                ctx.nontrivial(hash_of(&case_json(c).to_string()));
+                if (ctx.samples_len() < 2 || hash_of(&case_json(c).to_string()) % 173 == 0) {
+                    ctx.sample(4, || case_json(c));
+                }
+            }
+            ctx.class(if c.build_phase { "phase:build" } else { "phase:detect" });
+        },
+    );
     // one unrepresentable value per case
     let bad = (case_strategy(), 0u8..6, 0usize..4).prop_map(|(mut c, which, idx)| {
         match which {
@@ -449,7 +488,7 @@ pub fn run(ctx: &Ctx) {
                 c.bad_input = which - 2;
             }
             0 => {
-                let e = PEntry::BadFile { name: b"BAD_CONTENT".to_vec() };
+                let e = PEntry::BadFile { name: b"BAD_CONTENT".to_vec(), via_link: (idx % 3) as u8 };
                 match &mut c.platform {
                     Some(Some(v)) => v.insert(0, e),
                     p => *p = Some(Some(vec![e])),
@@ -463,11 +502,21 @@ pub fn run(ctx: &Ctx) {
         }
         c
     });
-    ctx.run_prop("unrepresentable", bad, ctx.tier.pick(300, 6000), case_json, |c| {
-        ctx.class("class:one-unrepresentable-value");
-        ctx.nontrivial(hash_of(&case_json(c).to_string()));
-        check(ctx, &scratch.path, c)
-    });
+    ctx.run_prop_par(
+        "unrepresentable",
+        bad,
+        ctx.tier.pick(3000, 20_000),
+        case_json,
+        |c| check_pure(&scratch.path, c),
+        |c, classes| {
+            ctx.eval();
+            for cl in classes {
+                ctx.class(cl);
+            }
+            ctx.class("class:one-unrepresentable-value");
+            ctx.nontrivial(hash_of(&case_json(c).to_string()));
+        },
+    );
 }
 
 pub fn replay(ctx: &Ctx, _sub: &str, case: &Value) {
